@@ -233,6 +233,7 @@ pub fn run_case(cfg: &RunCfg, case: &Case) -> Verdict {
     let strict = cfg.strict;
     let halfclose = !strict && cfg.kf.active("C01", "half-close-discards-buffered-body");
     let p4_listed = !strict && cfg.kf.active("C03", "pipelined-requests-served-after-close");
+    let drain_listed = !strict && cfg.kf.active("C03", "close-then-drain-then-serve");
     let n = case.reqs.len();
     let (sc, sent, bad, attack) = build(case, halfclose);
     let out = h1engine::run(sc);
@@ -336,7 +337,8 @@ pub fn run_case(cfg: &RunCfg, case: &Case) -> Verdict {
         let last_piece = out.send_log.iter().filter(|(_, from, to)| *from < b && *to > a).map(|(t, _, _)| *t).max();
         // a chunked body whose payload object was dropped (every non-echo handler drops it when it
         // returns) may be drained by the server to its exact end
-        let drainable = matches!(r.framing, Framing::Chunked { .. }) && !matches!(p.resp.body.kind, BodyKind::Echo);
+        // (an echo handler that fails drops the payload as well: the body is never echoed)
+        let drainable = matches!(r.framing, Framing::Chunked { .. }) && (p.fail || !matches!(p.resp.body.kind, BodyKind::Echo));
         if let (Some(td), Some(tl)) = (t_resp_done, last_piece) {
             if tl > td && !drainable {
                 unread_at = Some(k);
@@ -387,6 +389,21 @@ pub fn run_case(cfg: &RunCfg, case: &Case) -> Verdict {
         return v.class("unparseable-not-judged-here");
     }
 
+    // listed finding "close-then-drain-then-serve": request c had a chunked body that its handler
+    // dropped unread and whose remaining bytes arrived only after response c was complete; the
+    // server drains that body even though response c announced close, and then goes on decoding
+    let drained_after = |c: usize| -> bool {
+        let (Some(r), Some(p), Some(resp)) = (case.reqs.get(c), case.progs.get(c), resps.get(c)) else {
+            return false;
+        };
+        let chunked_dropped = matches!(r.framing, Framing::Chunked { .. })
+            && (p.fail || !matches!(p.resp.body.kind, BodyKind::Echo))
+            && !(matches!(p.read, ReadProg::All) && !p.fail);
+        let (a, b) = sent.ranges[c];
+        let td = out.time_of_out_offset(resp.end.saturating_sub(1));
+        let tl = out.send_log.iter().filter(|(_, from, to)| *from < b && *to > a).map(|(t, _, _)| *t).max();
+        chunked_dropped && matches!((td, tl), (Some(td), Some(tl)) if tl > td)
+    };
     if let Some((c, why)) = closing {
         let r = &resps[c];
         // the response is finished when its last byte is on the wire *and* the dispatcher is done
@@ -409,6 +426,10 @@ pub fn run_case(cfg: &RunCfg, case: &Case) -> Verdict {
                 v = v.kf_skip("pipelined-requests-served-after-close");
                 return v;
             }
+            if !early && drain_listed && drained_after(c) {
+                v = v.kf_skip("close-then-drain-then-serve");
+                return v;
+            }
             return v.fail_with(format!(
                 "response {c} ({why}, status {}) is followed by {} more bytes on the wire ({} responses in total); next request first sent at {:?} ms, closing response complete at {t_done} ms",
                 r.status,
@@ -426,6 +447,10 @@ pub fn run_case(cfg: &RunCfg, case: &Case) -> Verdict {
             let early = next_sent.is_some_and(|t| t <= t_done);
             if early && p4_listed {
                 v = v.kf_skip("pipelined-requests-served-after-close");
+                return v;
+            }
+            if !early && drain_listed && drained_after(c) {
+                v = v.kf_skip("close-then-drain-then-serve");
                 return v;
             }
             return v.fail_with(format!(
@@ -485,7 +510,7 @@ pub fn run(cfg: &RunCfg) -> Report {
     ];
     runner::replay_pinned(&mut rep, cfg, &replay);
     runner::replay_regress(&mut rep, cfg, &replay);
-    explore(&mut rep, cfg, "reuse", cfg.cases(60_000, 1_500_000), case_strategy, |c| run_case(cfg, c));
+    explore(&mut rep, cfg, "reuse", cfg.cases(400_000, 6_000_000), case_strategy, |c| run_case(cfg, c));
     rep
 }
 
